@@ -38,7 +38,7 @@ pub fn scenarios(tier: &str) -> Vec<Scenario> {
         let worlds: Vec<WorldSpec> = if thorough {
             // the 8 obstacle subsets with an even number of obstacles (every obstacle and every pair occurs)
             let mut w = b.subset_worlds();
-            w.retain(|x| x.obst.len() % 2 == 0);
+            w.retain(|x| x.obst.len() % 2 == 0 || x.name == "subset0001");
             w
         } else {
             vec![b.world_free(), b.world_named("subset0001", vec![b.obstacles[0].clone()]), b.world_named("subset0110", vec![b.obstacles[1].clone(), b.obstacles[2].clone()]), b.world_named("subset1111", b.obstacles.clone())]
@@ -689,7 +689,7 @@ fn run_kit<K: Kit>(tier: &'static str, scs: &[(usize, Scenario)]) -> Report {
     let (seeds, n) = if tier == "quick" { (2u64, 64usize) } else { (16, 150) };
     let dense: Vec<(usize, &Scenario, u64, f64)> = scs
         .iter()
-        .filter(|(_, s)| (s.world.name == "free" || s.world.name == "subset0001") && s.tag.ends_with("PRMr1.6"))
+        .filter(|(_, s)| (s.world.name == "free" || s.world.name == "subset0000" || s.world.name == "subset0001") && s.tag.ends_with("PRMr1.6"))
         .flat_map(|(i, s)| (0..seeds).flat_map(move |seed| [(*i, s, seed, 1.0), (*i, s, seed, 1e6)]))
         .collect();
     let dr = dense
